@@ -6,16 +6,17 @@ import Ctrmml.Proofs.Codec
 namespace Ctrmml.Codec
 open Ctrmml.Mds Ctrmml.Seq Tables
 
-variable {seq : List Nat} {base mj : Nat}
+variable {seq : List Nat} {base mj : Nat} {M : Mode}
 
 /-- mid-note: the note/tie byte `t` has been emitted as the last byte, its length is still open and
 the interpreter has not executed it; `O` is the interpreter's actual output -/
-structure Pending (e : Enc) (s : St) (O : List Tk) (t : Nat) : Prop where
+structure Pending (M : Mode) (e : Enc) (s : St) (O : List Tk) (t : Nat) : Prop where
   note : RegOk e.lastNote s.lastNote
   rest : RegOk e.lastRest s.lastRest
-  drum : s.drum = false
+  drum : s.drum = M.dm
   last : e.out.getLast? = some t
   ty : 0x81 ≤ t ∧ t < 0xe0
+  ok : M.okTy t = true
   pc : s.pc + 1 = e.out.length
   out : s.out = O
 
@@ -56,10 +57,10 @@ theorem noteLoop_frame : ∀ (fuel : Nat) (e : Enc) (arg : Nat) (e' : Enc) (a : 
       exact ⟨List.prefix_refl _, rfl, rfl, rfl⟩
 
 /-- the 128-tick splitting of a note into ties; fuel `f` suffices for `arg < 128 (f + 1)` -/
-theorem noteLoop_good : ∀ (fuel : Nat) (e : Enc) (arg : Nat) (s : St) (O : List Tk) (t : Nat) (e' : Enc) (a : Nat),
-    Pending e s O t → noteLoop fuel e arg = (e', a) → arg < 128 * (fuel + 1) → e'.out <+: seq →
-    ∃ s1 t' O', Reach seq base mj s s1 ∧ Frame s s1 ∧ Pending e' s1 O' t' ∧ a < 128 ∧
-      (noteTicks t' (a + 1)).reverse ++ O' = (noteTicks t (arg + 1)).reverse ++ O := by
+theorem noteLoop_good (hS : M.Sound seq base mj) : ∀ (fuel : Nat) (e : Enc) (arg : Nat) (s : St) (O : List Tk) (t : Nat) (e' : Enc) (a : Nat),
+    Pending M e s O t → noteLoop fuel e arg = (e', a) → arg < 128 * (fuel + 1) → e'.out <+: seq →
+    ∃ s1 t' O', Reach seq base mj s s1 ∧ Frame s s1 ∧ Pending M e' s1 O' t' ∧ a < 128 ∧
+      (M.nt t' (a + 1)).reverse ++ O' = (M.nt t (arg + 1)).reverse ++ O := by
   intro fuel
   induction fuel with
   | zero =>
@@ -73,9 +74,9 @@ theorem noteLoop_good : ∀ (fuel : Nat) (e : Enc) (arg : Nat) (s : St) (O : Lis
     rw [noteLoop_succ] at h
     by_cases hc : arg ≥ 128
     · simp only [hc, if_true] at h
-      have hsplit : noteTicks t (arg + 1) = noteTicks t 128 ++ noteTicks mds_TIE (arg - 128 + 1) := by
+      have hsplit : M.nt t (arg + 1) = M.nt t 128 ++ M.nt mds_TIE (arg - 128 + 1) := by
         have : arg + 1 = 128 + (arg - 128 + 1) := by omega
-        rw [this, noteTicks_split t 128 _ (by omega)]
+        rw [this, M.nt_split t 128 _ (by omega), M.nt_tie]
       by_cases hl : e.lastNote ≠ 0x7f
       · rw [if_pos hl] at h
         have hpre := (noteLoop_frame _ _ _ _ _ h).1
@@ -84,21 +85,19 @@ theorem noteLoop_good : ∀ (fuel : Nat) (e : Enc) (arg : Nat) (s : St) (O : Lis
           simpa [List.append_assoc] using this
         have r0 : seq[s.pc]? = some t := rd_last hp2 p.last p.pc
         have r1 : seq[s.pc + 1]? = some 0x7f := by rw [p.pc]; exact rd_at hp2
-        have hs := step_noteLen (base := base) (mj := mj) r0 p.ty.1 p.ty.2 r1 (by omega) p.drum
-        have p2 : Pending { e with lastNote := 0x7f, out := e.out ++ [0x7f] ++ [mds_TIE] }
-            (emitNote { s with pc := s.pc + 2, lastNote := some 0x7f } t (0x7f + 1))
-            ((noteTicks t 128).reverse ++ O) mds_TIE := by
-          refine ⟨?_, ?_, ?_, ?_, ?_, ?_, ?_⟩
-          · intro _; exact ⟨by simp, by simp [emitNote]⟩
-          · simpa [emitNote] using p.rest
-          · simpa [emitNote] using p.drum
+        obtain ⟨s2, rr, fr, hpc2, hn2, hr2, ho2⟩ := note_len hS r0 p.ty.1 p.ty.2 r1 (by omega) p.drum p.ok
+        have p2 : Pending M { e with lastNote := 0x7f, out := e.out ++ [0x7f] ++ [mds_TIE] } s2
+            ((M.nt t 128).reverse ++ O) mds_TIE := by
+          refine ⟨?_, ?_, ?_, ?_, ?_, M.okTy_tie, ?_, ?_⟩
+          · intro _; exact ⟨by simp, hn2⟩
+          · rw [hr2]; exact p.rest
+          · rw [fr.drum]; exact p.drum
           · simp
           · decide
-          · have := p.pc; simp [emitNote]; omega
-          · rw [emitNote_out, p.out]
+          · have := p.pc; rw [hpc2]; simp; omega
+          · rw [ho2, p.out]
         obtain ⟨s3, t', O', r3, f3, p3, ha, hT⟩ := ih _ _ _ _ _ _ _ p2 h (by omega) hp
-        have fr : Frame s (emitNote { s with pc := s.pc + 2, lastNote := some 0x7f } t (0x7f + 1)) := ⟨rfl, rfl, rfl, rfl⟩
-        refine ⟨s3, t', O', .head hs (by simp [emitNote_out]) r3, fr.trans f3, p3, ha, ?_⟩
+        refine ⟨s3, t', O', rr.trans r3, fr.trans f3, p3, ha, ?_⟩
         rw [hT, hsplit, List.reverse_append, List.append_assoc]
       · rw [if_neg hl] at h
         have hl' : e.lastNote = 0x7f := by simpa using hl
@@ -109,20 +108,19 @@ theorem noteLoop_good : ∀ (fuel : Nat) (e : Enc) (arg : Nat) (s : St) (O : Lis
         rw [hl'] at hreg
         have r0 : seq[s.pc]? = some t := rd_last hp2 p.last p.pc
         have r1 : seq[s.pc + 1]? = some mds_TIE := by rw [p.pc]; exact rd_at hp2
-        have hs := step_noteBare (base := base) (mj := mj) r0 p.ty.1 p.ty.2 r1 (by decide) hreg p.drum
-        have p2 : Pending { e with lastNote := 0x7f, out := e.out ++ [mds_TIE] }
-            (emitNote { s with pc := s.pc + 1 } t (0x7f + 1)) ((noteTicks t 128).reverse ++ O) mds_TIE := by
-          refine ⟨?_, ?_, ?_, ?_, ?_, ?_, ?_⟩
-          · intro _; exact ⟨by simp, by simp [emitNote, hreg]⟩
-          · simpa [emitNote] using p.rest
-          · simpa [emitNote] using p.drum
+        obtain ⟨s2, rr, fr, hpc2, hn2, hr2, ho2⟩ := note_bare hS r0 p.ty.1 p.ty.2 r1 (by decide) hreg p.drum p.ok
+        have p2 : Pending M { e with lastNote := 0x7f, out := e.out ++ [mds_TIE] } s2
+            ((M.nt t 128).reverse ++ O) mds_TIE := by
+          refine ⟨?_, ?_, ?_, ?_, ?_, M.okTy_tie, ?_, ?_⟩
+          · intro _; exact ⟨by simp, by rw [hn2, hreg]⟩
+          · rw [hr2]; exact p.rest
+          · rw [fr.drum]; exact p.drum
           · simp
           · decide
-          · have := p.pc; simp [emitNote]; omega
-          · rw [emitNote_out, p.out]
+          · have := p.pc; rw [hpc2]; simp; omega
+          · rw [ho2, p.out]
         obtain ⟨s3, t', O', r3, f3, p3, ha, hT⟩ := ih _ _ _ _ _ _ _ p2 h (by omega) hp
-        have fr : Frame s (emitNote { s with pc := s.pc + 1 } t (0x7f + 1)) := ⟨rfl, rfl, rfl, rfl⟩
-        refine ⟨s3, t', O', .head hs (by simp [emitNote_out]) r3, fr.trans f3, p3, ha, ?_⟩
+        refine ⟨s3, t', O', rr.trans r3, fr.trans f3, p3, ha, ?_⟩
         rw [hT, hsplit, List.reverse_append, List.append_assoc]
     · simp only [hc, if_false, Prod.mk.injEq] at h
       obtain ⟨rfl, rfl⟩ := h
@@ -145,10 +143,11 @@ theorem encNote_frame (e : Enc) (ty n : Nat) :
   · exact ⟨h1, h2, h3⟩
 
 /-- a note or tie of `n` ticks, `1 ≤ n ≤ 65535` -/
-theorem encNote_good {e : Enc} {s : St} {O : List Tk} (g : Good e s O) {ty n : Nat} (h1 : 0x81 ≤ ty) (h2 : ty < 0xe0)
+theorem encNote_good (hS : M.Sound seq base mj) {e : Enc} {s : St} {O : List Tk} (g : Good M e s O) {ty n : Nat}
+    (h1 : 0x81 ≤ ty) (h2 : ty < 0xe0) (hok : M.okTy ty = true)
     (hn1 : 1 ≤ n) (hn2 : n ≤ 65535) (hp : (encNote e ty n).out <+: seq) :
     ∃ s1, Reach seq base mj s s1 ∧ Frame s s1 ∧
-      Good { encNote e ty n with lastType := ty } s1 ((noteTicks ty n).reverse ++ O) := by
+      Good M { encNote e ty n with lastType := ty } s1 ((M.nt ty n).reverse ++ O) := by
   obtain ⟨e1, a, hnl, henc⟩ := encNote_eq e ty n
   have hfr := noteLoop_frame _ _ _ _ _ hnl
   have hpre1 : e1.out <+: (encNote e ty n).out := by
@@ -157,10 +156,10 @@ theorem encNote_good {e : Enc} {s : St} {O : List Tk} (g : Good e s O) {ty n : N
     · exact List.prefix_refl _
   have hp1 : e1.out <+: seq := hpre1.trans hp
   have hp0 : e.out ++ [ty] <+: seq := hfr.1.trans hp1
-  obtain ⟨s1, r1, f1, i1⟩ := resolve (base := base) (mj := mj) g (b := ty) (by omega) hp0
-  have p0 : Pending { e with out := e.out ++ [ty] } s1 O ty :=
-    ⟨i1.note, i1.rest, i1.drum, by simp, ⟨h1, h2⟩, by simp [i1.pc], i1.out⟩
-  obtain ⟨s2, t', O', r2, f2, p2, ha, hT⟩ := noteLoop_good (base := base) (mj := mj) 512 _ _ _ _ _ _ _ p0 hnl (by omega) hp1
+  obtain ⟨s1, r1, f1, i1⟩ := resolve (base := base) (mj := mj) hS g (b := ty) (by omega) hp0
+  have p0 : Pending M { e with out := e.out ++ [ty] } s1 O ty :=
+    ⟨i1.note, i1.rest, i1.drum, by simp, ⟨h1, h2⟩, hok, by simp [i1.pc], i1.out⟩
+  obtain ⟨s2, t', O', r2, f2, p2, ha, hT⟩ := noteLoop_good (base := base) (mj := mj) hS 512 _ _ _ _ _ _ _ p0 hnl (by omega) hp1
   have hn : n - 1 + 1 = n := by omega
   rw [hn] at hT
   rw [henc] at hp ⊢
@@ -171,22 +170,21 @@ theorem encNote_good {e : Enc} {s : St} {O : List Tk} (g : Good e s O) {ty n : N
     have hp' : e1.out ++ [a] <+: seq := hp
     have r0 : seq[s2.pc]? = some t' := rd_last hp' p2.last p2.pc
     have r1' : seq[s2.pc + 1]? = some a := by rw [p2.pc]; exact rd_at hp'
-    have hs := step_noteLen (base := base) (mj := mj) r0 p2.ty.1 p2.ty.2 r1' ha p2.drum
-    have fr : Frame s2 (emitNote { s2 with pc := s2.pc + 2, lastNote := some a } t' (a + 1)) := ⟨rfl, rfl, rfl, rfl⟩
-    refine ⟨_, r1.trans (r2.trans (.one hs (by simp [emitNote_out]))), f1.trans (f2.trans fr),
+    obtain ⟨s3, rr, fr, hpc3, hn3, hr3, ho3⟩ := note_len hS r0 p2.ty.1 p2.ty.2 r1' ha p2.drum p2.ok
+    refine ⟨s3, r1.trans (r2.trans rr), f1.trans (f2.trans fr),
       ⟨?_, ?_, ?_, .inl ⟨?_, ?_, ?_⟩⟩⟩
-    · intro _; exact ⟨ha, by simp [emitNote]⟩
-    · simpa [emitNote] using p2.rest
-    · simpa [emitNote] using p2.drum
+    · intro _; exact ⟨ha, hn3⟩
+    · rw [hr3]; exact p2.rest
+    · rw [fr.drum]; exact p2.drum
     · have : ¬ a > 128 := by omega
       simp [needLenB, lastGt80_concat, this]
-    · have := p2.pc; simp [emitNote]; omega
-    · rw [emitNote_out, p2.out, hT]
+    · have := p2.pc; rw [hpc3]; simp; omega
+    · rw [ho3, p2.out, hT]
   · rw [if_neg hc] at hp ⊢
     have hc' : a = e1.lastNote := by simpa using hc
     have hU : e1.lastNote ≠ U16 := by rw [← hc']; simp [U16]; omega
     refine ⟨s2, r1.trans r2, f1.trans f2,
-      ⟨p2.note, p2.rest, p2.drum, .inr ⟨?_, hU, t', p2.last, p2.ty.1, p2.ty.2, p2.pc, ?_⟩⟩⟩
+      ⟨p2.note, p2.rest, p2.drum, .inr ⟨?_, hU, t', p2.last, p2.ty.1, p2.ty.2, p2.pc, ?_, p2.ok⟩⟩⟩
     · have b1 : mds_TIE ≤ ty := h1
       have b2 : ty < mds_SLR := h2
       have b3 : t' > 128 := by have := p2.ty.1; omega
@@ -207,30 +205,45 @@ theorem needLenB_cmd {e : Enc} (h : e.lastType ≥ 0xe0) : needLenB e = false :=
   have : ¬ e.lastType < mds_SLR := by simp [mds_SLR]; omega
   simp [needLenB, noteish, this]
 
-theorem cmd1_good {e e' : Enc} {s : St} {O : List Tk} (g : Good e s O) {op a : Nat}
-    (hop : oneArgOps.contains op = true) (hf : op = mds_FLG → drumSafe a = true)
+theorem cmd1_good (hS : M.Sound seq base mj) {e e' : Enc} {s : St} {O : List Tk} (g : Good M e s O) {op a : Nat}
+    (hop : oneArgOps.contains op = true) (hf : op = mds_FLG → drumSafe M.dm a = true)
     (ho : e'.out = e.out ++ [op, a]) (hn : e'.lastNote = e.lastNote) (hr : e'.lastRest = e.lastRest)
     (ht : e'.lastType ≥ 0xe0) (hp : e'.out <+: seq) :
-    ∃ s1, Reach seq base mj s s1 ∧ Frame s s1 ∧ Good e' s1 (Tk.cmd op a :: O) := by
+    ∃ s1, Reach seq base mj s s1 ∧ Frame s s1 ∧ Good M e' s1 (Tk.cmd op a :: O) := by
   rw [ho] at hp
   have hge := oneArgOps_ge hop
-  obtain ⟨s1, r1, f1, i1⟩ := resolve (base := base) (mj := mj) g (b := op) (by omega) hp
+  obtain ⟨s1, r1, f1, i1⟩ := resolve (base := base) (mj := mj) hS g (b := op) (by omega) hp
   have r0 : seq[s1.pc]? = some op := by rw [i1.pc]; exact rd_at hp
   have r1' : seq[s1.pc + 1]? = some a := by rw [i1.pc]; exact rd_at1 hp
-  have hs := step_cmd1 (base := base) (mj := mj) r0 hop r1' hf i1.drum
+  have hs := step_cmd1 (base := base) (mj := mj) r0 hop r1' (by rw [i1.drum]; exact hf)
   refine ⟨_, r1.trans (.one hs (by simp)), f1.trans ⟨rfl, rfl, rfl, rfl⟩,
     ⟨hn ▸ i1.note, hr ▸ i1.rest, i1.drum, .inl ⟨needLenB_cmd ht, ?_, ?_⟩⟩⟩
   · simp [ho, i1.pc]
   · simp [i1.out]
 
-theorem cmd2_good {e e' : Enc} {s : St} {O : List Tk} (g : Good e s O) {op hi lo : Nat}
+/-- `FLG` with an argument below `0x80`: the drum flag follows bit 3 -/
+theorem flg_good (hS : M.Sound seq base mj) {e e' : Enc} {s : St} {O : List Tk} (g : Good M e s O) {a : Nat}
+    (ha : a < 0x80) (ho : e'.out = e.out ++ [mds_FLG, a]) (hn : e'.lastNote = e.lastNote)
+    (hr : e'.lastRest = e.lastRest) (ht : e'.lastType ≥ 0xe0) (hp : e'.out <+: seq) :
+    ∃ s1, Reach seq base mj s s1 ∧ FrameX s s1 ∧ Good (M.set (decide (a &&& 8 ≠ 0))) e' s1 (Tk.cmd mds_FLG a :: O) := by
+  rw [ho] at hp
+  obtain ⟨s1, r1, f1, i1⟩ := resolve (base := base) (mj := mj) hS g (b := mds_FLG) (by decide) hp
+  have r0 : seq[s1.pc]? = some mds_FLG := by rw [i1.pc]; exact rd_at hp
+  have r1' : seq[s1.pc + 1]? = some a := by rw [i1.pc]; exact rd_at1 hp
+  have hs := step_flg (base := base) (mj := mj) r0 r1' ha
+  refine ⟨_, r1.trans (.one hs (by simp)), f1.x.trans ⟨rfl, rfl, rfl⟩,
+    ⟨hn ▸ i1.note, hr ▸ i1.rest, rfl, .inl ⟨needLenB_cmd ht, ?_, ?_⟩⟩⟩
+  · simp [ho, i1.pc]
+  · simp [i1.out]
+
+theorem cmd2_good (hS : M.Sound seq base mj) {e e' : Enc} {s : St} {O : List Tk} (g : Good M e s O) {op hi lo : Nat}
     (hop : twoArgOps.contains op = true)
     (ho : e'.out = e.out ++ [op, hi, lo]) (hn : e'.lastNote = e.lastNote) (hr : e'.lastRest = e.lastRest)
     (ht : e'.lastType ≥ 0xe0) (hp : e'.out <+: seq) :
-    ∃ s1, Reach seq base mj s s1 ∧ Frame s s1 ∧ Good e' s1 (Tk.cmd op (hi * 256 + lo) :: O) := by
+    ∃ s1, Reach seq base mj s s1 ∧ Frame s s1 ∧ Good M e' s1 (Tk.cmd op (hi * 256 + lo) :: O) := by
   rw [ho] at hp
   have hge := twoArgOps_ge hop
-  obtain ⟨s1, r1, f1, i1⟩ := resolve (base := base) (mj := mj) g (b := op) (by omega) hp
+  obtain ⟨s1, r1, f1, i1⟩ := resolve (base := base) (mj := mj) hS g (b := op) (by omega) hp
   have r0 : seq[s1.pc]? = some op := by rw [i1.pc]; exact rd_at hp
   have r1' : seq[s1.pc + 1]? = some hi := by rw [i1.pc]; exact rd_at1 hp
   have r2' : seq[s1.pc + 1 + 1]? = some lo := by rw [i1.pc]; exact rd_at2 hp
@@ -240,12 +253,12 @@ theorem cmd2_good {e e' : Enc} {s : St} {O : List Tk} (g : Good e s O) {op hi lo
   · simp [ho, i1.pc]
   · simp [i1.out]
 
-theorem slr_good {e e' : Enc} {s : St} {O : List Tk} (g : Good e s O)
+theorem slr_good (hS : M.Sound seq base mj) {e e' : Enc} {s : St} {O : List Tk} (g : Good M e s O)
     (ho : e'.out = e.out ++ [mds_SLR]) (hn : e'.lastNote = e.lastNote) (hr : e'.lastRest = e.lastRest)
     (ht : e'.lastType ≥ 0xe0) (hp : e'.out <+: seq) :
-    ∃ s1, Reach seq base mj s s1 ∧ Frame s s1 ∧ Good e' s1 (Tk.cmd mds_SLR 0 :: O) := by
+    ∃ s1, Reach seq base mj s s1 ∧ Frame s s1 ∧ Good M e' s1 (Tk.cmd mds_SLR 0 :: O) := by
   rw [ho] at hp
-  obtain ⟨s1, r1, f1, i1⟩ := resolve (base := base) (mj := mj) g (b := mds_SLR) (by decide) hp
+  obtain ⟨s1, r1, f1, i1⟩ := resolve (base := base) (mj := mj) hS g (b := mds_SLR) (by decide) hp
   have r0 : seq[s1.pc]? = some mds_SLR := by rw [i1.pc]; exact rd_at hp
   have hs := step_slr (base := base) (mj := mj) r0
   refine ⟨_, r1.trans (.one hs (by simp)), f1.trans ⟨rfl, rfl, rfl, rfl⟩,
